@@ -31,6 +31,16 @@ from openfisca_core.variables import Variable
 log = logging.getLogger(__name__)
 
 
+@functools.lru_cache
+def _get_at_instant(parameters: ParameterNode, instant: Instant):
+    """Memoise the view of a parameter tree at an instant.
+
+    The tree itself is part of the key, so that a system whose parameters have
+    been replaced (reform, reload) never sees the view of its former tree.
+    """
+    return parameters.get_at_instant(instant)
+
+
 class TaxBenefitSystem:
     """Represents the legislation.
 
@@ -442,7 +452,6 @@ class TaxBenefitSystem:
             return self.get_parameters_at_instant(instant)
         return baseline._get_baseline_parameters_at_instant(instant)
 
-    @functools.lru_cache
     def get_parameters_at_instant(
         self,
         instant: str | int | Period | Instant,
@@ -475,7 +484,7 @@ class TaxBenefitSystem:
         if self.parameters is None:
             return None
 
-        return self.parameters.get_at_instant(key)
+        return _get_at_instant(self.parameters, key)
 
     def get_package_metadata(self) -> dict[str, str]:
         """Gets metadata relative to the country package.
